@@ -512,6 +512,51 @@ func c10GirthOnly(n int) {
 }
 
 func H_c10_girth6_q() { c10GirthOnly(6) }
+
+// c10DistanceOnly: Distance for every ordered pair on every labelled graph of order exactly
+// n (dense) against Floyd-Warshall (-1 for unreachable).
+func c10DistanceOnly(n int) {
+	adj := vgAdj(n, vgBits(n))
+	const inf = 1 << 20
+	d := make([][]int, n)
+	for i := range d {
+		d[i] = make([]int, n)
+		for j := range d[i] {
+			if i == j {
+				d[i][j] = 0
+			} else if adj[i][j] {
+				d[i][j] = 1
+			} else {
+				d[i][j] = inf
+			}
+		}
+	}
+	for k := 0; k < n; k++ {
+		for i := 0; i < n; i++ {
+			for j := 0; j < n; j++ {
+				if d[i][k]+d[k][j] < d[i][j] {
+					d[i][j] = d[i][k] + d[k][j]
+				}
+			}
+		}
+	}
+	var g Graph = vgDense(adj)
+	for i := 0; i < n; i++ {
+		for j := 0; j < n; j++ {
+			want := d[i][j]
+			if want >= inf {
+				want = -1
+			}
+			if Distance(g, i, j) != want {
+				rt.Fail("Distance differs from Floyd-Warshall")
+				return
+			}
+		}
+	}
+	rt.Reach("end")
+}
+
+func H_c10_distance6_q() { c10DistanceOnly(6) }
 func H_c10_girth7sparse_t() {
 	// n = 7 with at most 8 edges (solver-pruned family)
 	n := 7
